@@ -8,6 +8,7 @@ CONSTANTS
   FD = TRUE
   MaxAge = 2
   QuietTicks = TRUE
+  JoinShortcut = FALSE
   BumpAdvancesVersion = TRUE
   NodeRank <- Rank
 CONSTRAINT VVBound
